@@ -53,7 +53,7 @@ Inductive ierr : Type :=
 | EUnits          (* "Unsupported GDSII Units" *)
 | EDepOrder       (* GdsDepOrder: undefined or self-referencing struct *)
 | EOpenBoundary   (* "GDS Boundary must start and end at the same point" *)
-| EPathWidth      (* "Invalid nonspecifed GDS Path width", or (repaired) a negative width *)
+| EPathWidth      (* "Invalid nonspecifed GDS Path width" *)
 | EAbsFlags       (* "Unsupported ... Absolute Magnitude/ Angle" *)
 | EMag            (* "Unsupported GDSII Array Setting: Magnitude", (repaired) SREF magnification *)
 | ENoCell         (* "Instance of invalid cell" *)
@@ -92,11 +92,14 @@ Record cfg : Type := mkcfg {
   fx_emptyxy : bool;    (* boundary / path without coordinates is an error (as found: `pts[0]` panics;
                            an empty path is imported) *)
   fx_mag : bool;        (* SREF magnification other than 1 is an error (as found: ignored) *)
-  fx_width : bool;      (* negative path width is an error (as found: `as usize` wraps) *)
-  fx_contains : bool }. (* Polygon::contains as repaired for C13 (as found: Geom/Contains.v [_orig]) *)
+  fx_width : bool;      (* a negative path width (GDSII: an absolute width) is imported as its magnitude
+                           (as found: `as usize` wraps it to 2^64 - |w|) *)
+  fx_contains : bool;   (* Polygon::contains as repaired for C13 (as found: Geom/Contains.v [_orig]) *)
+  fx_pico : bool;       (* import_units knows 1e-12 m = Units::Pico (repair proposed by C07; as found: an error) *)
+  fx_pathdiag : bool }. (* Path::contains handles non-Manhattan segments (as found: `unimplemented!`) *)
 
-Definition cfg_orig : cfg := mkcfg false false false false false false false false.
-Definition cfg_fixed : cfg := mkcfg true true true true true true true true.
+Definition cfg_orig : cfg := mkcfg false false false false false false false false false false.
+Definition cfg_fixed : cfg := mkcfg true true true true true true true true true true.
 
 (** * Strings *)
 Definition str_of_bytes (l : list Z) : string :=
@@ -130,6 +133,7 @@ Definition bits_1em10 : Z := 4457293557087583675.   (* 1e-10 *)
 Definition bits_1em13 : Z := 4412443251819771522.   (* 1e-13 *)
 Definition bits_1em9 : Z := 4472406533629990549.    (* 1e-9 *)
 Definition bits_1em12 : Z := 4427486594234968593.   (* 1e-12 *)
+Definition bits_1em15 : Z := 4382569440205035030.   (* 1e-15 *)
 Definition bits_1em6 : Z := 4517329193108106637.    (* 1e-6 *)
 Definition bits_one : Z := 4607182418800017408.     (* 1.0 *)
 Definition bits_deg2rad : Z := 4580687790476533049. (* consts::PI / 180.0 *)
@@ -149,9 +153,10 @@ Definition near (u c t : Z) : bool :=
     end
   | _, _, _ => false
   end.
-Definition import_units (u : Z * Z) : ires units :=
+Definition import_units (c : cfg) (u : Z * Z) : ires units :=
   let gdsunit := snd u in                                   (* units.db_unit() = units.1 *)
-  if near gdsunit bits_1em10 bits_1em13 then IOk Angstrom
+  if fx_pico c && near gdsunit bits_1em12 bits_1em15 then IOk Pico
+  else if near gdsunit bits_1em10 bits_1em13 then IOk Angstrom
   else if near gdsunit bits_1em9 bits_1em12 then IOk Nano
   else if near gdsunit bits_1em6 bits_1em9 then IOk Micro
   else IErr EUnits.
@@ -230,10 +235,9 @@ Definition import_path (c : cfg) (ly : layers) (x : G.path) : ires (layers * ele
     match G.p_width x with
     | None => IErr EPathWidth
     | Some w =>
-      if w <? 0 then
-        if fx_width c then IErr EPathWidth
-        else IOk (mk_element ly (G.p_layer x) (G.p_datatype x) (Path pts (w + two64)))   (* `w as usize` *)
-      else IOk (mk_element ly (G.p_layer x) (G.p_datatype x) (Path pts w))
+      (* repaired: `w.unsigned_abs() as usize`; as found: `w as usize` *)
+      let w' := if w <? 0 then (if fx_width c then - w else w + two64) else w in
+      IOk (mk_element ly (G.p_layer x) (G.p_datatype x) (Path pts w'))
     end
   end.
 
@@ -400,10 +404,58 @@ Definition shape_c (s : shape) : C.shape :=
   | Polygon pts => C.SPolygon (map cpt pts)
   | Path pts w => C.SPath (map cpt pts) w
   end.
+(** Path::contains with the repair work/c06/fix-8-path-contains-nonmanhattan.patch: horizontal and
+    vertical segments as before ([C.path_scan]); any other segment a b holds q when
+    0 <= (q-a).(b-a) <= |b-a|^2 and 2 |(b-a) x (q-a)| <= isqrt(width^2 |b-a|^2), computed in i128 / u128
+    ([C.Ovf] when an intermediate leaves that range). *)
+Definition u128_max : Z := 2 ^ 128 - 1.
+Definition in_u128 (z : Z) : bool := (0 <=? z) && (z <=? u128_max).
+Fixpoint path_scan_fixed (ps : list C.point) (w : Z) (q : C.point) : C.res :=
+  match ps with
+  | a :: (b :: _) as tl =>
+    let hw := Z.quot w 2 in
+    if C.X a =? C.X b then
+      let x0 := C.X a - hw in let x1 := C.X a + hw in
+      if C.all_in_int [x0; x1] then
+        if C.rect_contains (x0, C.Y a) (x1, C.Y b) q then C.Ret true else path_scan_fixed tl w q
+      else C.Ovf
+    else if C.Y a =? C.Y b then
+      let y0 := C.Y a - hw in let y1 := C.Y a + hw in
+      if C.all_in_int [y0; y1] then
+        if C.rect_contains (C.X a, y0) (C.X b, y1) q then C.Ret true else path_scan_fixed tl w q
+      else C.Ovf
+    else
+      let dx := C.X b - C.X a in let dy := C.Y b - C.Y a in
+      let qx := C.X q - C.X a in let qy := C.Y q - C.Y a in
+      let len2 := dx * dx + dy * dy in
+      let dot := qx * dx + qy * dy in
+      let cr := dx * qy - dy * qx in
+      if C.all_in_i128 [dx; dy; qx; qy; dx * dx; dy * dy; len2; qx * dx; qy * dy; dot; dx * qy; dy * qx; cr]
+         && in_u128 (w * w) && in_u128 (w * w * len2) && in_u128 (2 * Z.abs cr) then
+        if (0 <=? dot) && (dot <=? len2) && (2 * Z.abs cr <=? Z.sqrt (w * w * len2)) then C.Ret true
+        else path_scan_fixed tl w q
+      else C.Ovf
+  | _ => C.Ret false
+  end.
+Definition path_contains_fixed (ps : list C.point) (width : Z) (q : C.point) : C.res :=
+  if negb (C.in_int width) then C.Panic
+  else match ps with
+       | [] => C.Panic
+       | _ => path_scan_fixed ps width q
+       end.
+
+(** Shape::contains of the tree at hand *)
+Definition contains_res (c : cfg) (s : C.shape) (q : C.point) : C.res :=
+  match s with
+  | C.SRect p0 p1 => C.Ret (C.rect_contains p0 p1 q)
+  | C.SPolygon ps => if fx_contains c then C.poly_contains ps q else C.poly_contains_orig ps q
+  | C.SPath ps w => if fx_pathdiag c then path_contains_fixed ps w q else C.path_contains ps w q
+  end.
+
 (** `elem.inner.contains(&loc)`; an integer overflow is a panic (the harness is built with
     overflow checks) *)
 Definition shape_contains (c : cfg) (s : shape) (q : point) : ires bool :=
-  match (if fx_contains c then C.shape_contains else C.shape_contains_orig) (shape_c s) (cpt q) with
+  match contains_res c (shape_c s) (cpt q) with
   | C.Ret b => IOk b
   | C.Ovf => IPanic
   | C.Panic => IPanic
@@ -527,7 +579,7 @@ Fixpoint import_structs (c : cfg) (structs : list G.gstruct) (st : istate) (orde
 
 (** GdsImporter::import(gdslib, layers): [ly0] = the caller's layer table ([[]] for `None`) *)
 Definition import_lib (c : cfg) (ly0 : layers) (g : G.library) : ires library :=
-  do u <- import_units (G.l_units g);
+  do u <- import_units c (G.l_units g);
   match gds_order (G.l_structs g) with
   | D.Err => IErr EDepOrder
   | D.Panic => IPanic
